@@ -126,6 +126,17 @@ impl SemanticState {
             })
             .collect::<anyhow::Result<Vec<_>>>()?;
 
+        // Each extern value becomes an accessor named after it, so the names must be unique.
+        for (index, ev) in extern_values.iter().enumerate() {
+            if extern_values[..index].iter().any(|e| e.name == ev.name) {
+                anyhow::bail!(
+                    "the extern value `{}` is defined more than once in module `{}`",
+                    ev.name,
+                    path
+                );
+            }
+        }
+
         self.modules.insert(
             path.clone(),
             Module::new(
